@@ -190,3 +190,32 @@ func VT_ring_script() {
 	v, ok := r.Peek(-1)
 	vOut("pop", p.Value, p.Len(), vCycle(r), v, ok, r.At(9) == nil)
 }
+
+// VH_ring_FarOffsets: At/Peek for every offset in the int range (the cycle
+// checks above stay within n+2 of the ring because they run after every step).
+func VH_ring_FarOffsets() {
+	n := vCase("n")
+	want := vIDs(10, n)
+	r := Of(want...)
+	elem := r
+	if n > 1 {
+		elem = r.At(vChoice("from", n))
+		want = append(append([]int{}, want[elem.Value-10:]...), want[:elem.Value-10]...)
+	}
+	k := vInt("k") // any offset at all, including the extreme values of int
+	at := elem.At(k)
+	pv, pok := elem.Peek(k)
+	vCover("ring-far-offsets")
+	inside := vAll(k > -n, k < n)
+	outside := vAny(k < -n, k > n)
+	vAssert(vImplies(inside, at != nil), "At(k) non-nil for |k| < Len")
+	vAssert(vImplies(outside, at == nil), "At(k) nil for |k| > Len, for every k")
+	vAssert(vImplies(inside, pok), "Peek(k) ok for |k| < Len")
+	vAssert(vImplies(outside, !pok && pv == 0), "Peek(k) zero,false for |k| > Len, for every k")
+	for c := -n + 1; c < n; c++ {
+		j := ((c % n) + n) % n
+		vAssert(vImplies(k == c, pv == want[j]), "Peek(k) is the element k steps away")
+	}
+	var nilRing *Ring[int]
+	vAssert(nilRing.At(k) == nil, "At on the nil ring is nil for every k")
+}
